@@ -218,12 +218,14 @@ class Rig:
     """One gateway on one virtual loop."""
 
     def __init__(self, loop, *, config=None, schema=None, known_list=None, block_list=None, responder=None,
-                 gwy_id=GWY_ID, disable_discovery=True, ether: Ether | None = None, port: bool = False) -> None:
+                 gwy_id=GWY_ID, disable_discovery=True, ether: Ether | None = None, port: bool = False,
+                 early_frames=None) -> None:
         self.loop = loop
         self.responder = responder
         self.gwy_id = gwy_id
         self.ether = ether
         self.port = port          # the real PortTransport on a pty instead of the mock
+        self.early_frames = list(early_frames or ())   # heard as soon as the transport is open, while start() is still under way
         self._pty = None
         cfg = {"disable_discovery": disable_discovery, "enforce_known_list": False, **(config or {})}
         self.kwargs = dict(config=cfg, **(schema or {}))
@@ -251,6 +253,12 @@ class Rig:
                 rig.transport = await make_port_transport(rig, protocol, **kw)
                 return rig.transport
             rig.transport = MT(protocol, rig.loop, gwy_id=rig.gwy_id, responder=rig.responder)
+            if rig.early_frames:
+                # a real transport factory returns only once the connection is made (for a serial port: after the
+                # signature exchange, 50-100 ms); what is heard meanwhile is heard while Gateway.start() is still under way
+                for fr in rig.early_frames:
+                    rig.loop.call_later(0.05, rig.transport.inject, fr)
+                await asyncio.sleep(0.1)
             if rig.ether is not None:
                 rig.transport.ether = rig.ether
                 rig.ether.ports.append(rig.transport)
